@@ -4,7 +4,7 @@ import json
 META = {
     "level": "model_checking",
     "technique": "TLA+ network model (GossipNet.tla: every connected topology and mesh on 3-4 nodes, duplicate cache, flood/mesh publish, forwarding) model-checked for at-most-once delivery, no delivery at the publisher, no copy back or to the source, and delivery to all under fairness (+ 2 canaries); networks of up to 12 real gossipsub Behaviours (signed messages through the real codec) with the driver playing the links validated by TLC against the property-level trace spec TraceGossipNet",
-    "text": "TLC exhaustively explores all interleavings of publish and receive for every connected topology on 3-4 nodes with every connected mesh inside it (1-2 messages) and checks the four safety invariants and the liveness property; canaries (forward back to the sender, skipped duplicate-cache insert) are rejected. Conformance: 2-12 real Behaviours on seeded random connected topologies (trees to cliques) with mesh sizes from 1/1/2 to 'everyone', flood or mesh publish, 1-2 topics, 1-5 messages; the schedule picks which link delivers its next RPC and when nodes heartbeat, so message orders and heartbeat timings are arbitrary; every RPC travels as bytes through the receiver's real codec with strict signature validation. TLC checks on every step: an application sees a message at most once and never its own; no copy is queued for the message's source or for a neighbour the node has received that message from (except in answer to that neighbour's IWANT); and at the end, for runs whose meshes were at a fixed point from the first publish on, that every other node has delivered every published message.",
+    "text": "TLC exhaustively explores all interleavings of publish and receive for every connected topology on 3-4 nodes with every connected mesh inside it (1-2 messages) and checks the four safety invariants and the liveness property; canaries (forward back to the sender, skipped duplicate-cache insert) are rejected. Conformance: 2-12 real Behaviours on seeded random connected topologies (trees to cliques) with mesh sizes from 1/1/2 to 'everyone', flood or mesh publish, 1-2 topics, 1-5 messages; the schedule picks which link delivers its next RPC and when nodes heartbeat, so message orders and heartbeat timings are arbitrary; every RPC travels as bytes through the receiver's real codec with strict signature validation. 40% of the runs use gossipsub v1.2 peers with messages above the IDONTWANT size threshold and held-back links (RPCs stay in the behaviour's real per-peer send queue while IDONTWANTs arrive); 30% run with validate_messages(), the applications accepting at scheduled later points; directed schedules (IDONTWANT against a queued burst; duplicates arriving while validation is pending) run first. TLC checks on every step: an application sees a message at most once and never its own; no copy is queued for the message's source or for a neighbour the node has received that message from (except in answer to that neighbour's IWANT); and at the end, for runs whose meshes were at a fixed point from the first publish on, that every other node has delivered every published message.",
     "note": "The nodes are real Behaviours wired by the driver (no Swarm/transport): link-level interleaving is then fully controlled and every copy observable. Delivery to all is asserted only for runs without mesh churn after the first publish (a peer grafted after its neighbour got a message receives neither forward nor gossip: gossipsub's design); gossip_lazy and history sizes are set so that gossip reaches every non-mesh neighbour. Duplicate-cache expiry (time) is outside this check (C33).",
     "design_ref": "6/C27",
 }
